@@ -1,15 +1,16 @@
 #!/bin/sh
-# re-evaluates every stored independent change (both rounds) against the current checks
+# re-evaluates every stored independent change (/verif/seeded/<id>/) against the current checks and the current /repo
+# usage: tools/seedall.sh [id-prefix ...]      e.g. tools/seedall.sh c01 c14-6
 cd "$(dirname "$0")/.."
-for id in C01 C02 C03 C04 C05 C06 C07 C08 C09 C10 C11 C12 C13 C14 C15 C16 C17 C18 C19 C20; do
-  lid=$(echo $id | tr 'A-Z' 'a-z')
-  for pair in "round1/1 1" "round1/2 2" "round2/1 3" "round2/2 4" "out/1 5" "out/2 6"; do
-    set -- $pair
-    d=/tmp/seed/$id/$1
-    [ -f $d/patch.diff ] || continue
-    python3 tools/seedeval.py $d $lid-$2 2>&1 | python3 -c "
+for d in seeded/c*; do
+  sid=$(basename $d)
+  if [ $# -gt 0 ]; then
+    hit=0; for p in "$@"; do case $sid in $p*) hit=1;; esac; done
+    [ $hit = 1 ] || continue
+  fi
+  [ -f $d/patch.diff ] || continue
+  python3 tools/seedeval.py $d $sid 2>&1 | python3 -c "
 import sys,re
 l=sys.stdin.read()
-print('$lid-$2', 'valid=' + str('\"valid_seed\": true' in l), re.findall(r'\"(quick|thorough|replay_on_changed_tree|replay_on_repo)\": (\d)', l), re.findall(r'kind=([\w:-]+)', l)[:1])"
-  done
+print('$sid', 'valid=' + str('\"valid_seed\": true' in l), re.findall(r'\"(applies|quick|thorough|replay_on_changed_tree|replay_on_repo)\": (\\d|true|false)', l), re.findall(r'kind=([\\w:-]+)', l)[:1])"
 done
